@@ -59,6 +59,8 @@ type Exec struct {
 	nterm     int
 	steps     int
 	maxSteps  int
+	pathStart  time.Time
+	pathBudget time.Duration
 	depth     int
 	wraps     int
 	nonlinear int
@@ -685,6 +687,11 @@ func (fr *frame) runBlock() {
 		e.steps++
 		if e.steps > e.maxSteps {
 			panic(pathStop{kind: "unwind", msg: fmt.Sprintf("instruction budget %d exceeded in %s", e.maxSteps, fr.fn)})
+		}
+		// wall-clock budget of one path: a loop whose every iteration stays feasible (and costs solver time) would
+		// otherwise run for hours before the instruction budget is reached
+		if e.steps&255 == 0 && e.pathBudget > 0 && time.Since(e.pathStart) > e.pathBudget {
+			panic(pathStop{kind: "unwind", msg: fmt.Sprintf("path time budget %v exceeded after %d instructions in %s", e.pathBudget, e.steps, fr.fn)})
 		}
 		if p := in.Pos(); p.IsValid() {
 			e.curPos = p
